@@ -77,7 +77,14 @@ def _run(cmd, cwd=None, timeout=3600, input=None):
 
 def lake_build(targets=()) -> tuple[bool, str]:
     r = _run(['lake', 'build', *targets], cwd=LEAN_DIR)
-    return r.returncode == 0, (r.stdout + r.stderr)
+    out = r.stdout + r.stderr
+    if r.returncode != 0 and ('clang frontend command failed' in out or 'signal' in out.lower() and 'clang' in out):
+        # the C compiler of the driver was killed (seen under memory pressure with several checks building at once): a failure
+        # of the machine, not of a proof — wait and build once more
+        time.sleep(5.0)
+        r = _run(['lake', 'build', *targets], cwd=LEAN_DIR)
+        out = r.stdout + r.stderr
+    return r.returncode == 0, out
 
 
 _COMMENT_BLOCK = re.compile(r'/-.*?-/', re.S)
